@@ -213,6 +213,13 @@ func vfClient(s *Scheduler, i int, nModels int, done chan int) {
 	case 2:
 		ka = &api.Duration{Duration: time.Minute}
 	}
+	verifNote("request model=" + m.ShortName)
+	if bigCtx {
+		verifNote("request bigctx")
+	}
+	if kaChoice == 1 {
+		verifNote("request keepalive=0")
+	}
 	ctx := newVfCtx()
 	reported := false
 	var using *vfSrv // the runner this request is currently using ("in progress" ends at cancellation)
@@ -359,11 +366,17 @@ func VerifSchedCfg(nModels int, nReq int, maxRunners int, queue int, flags int, 
 			verifAssert(vfReplies[i] == 1, "exactly-one-reply")
 		}
 	}
+	// known-finding class: at quiescence the expiry queue is still full - its only receiver, the completed
+	// loop, is blocked sending its own expiry event into it, so nothing it owes can happen any more
+	suffix := ""
+	if cap(s.expiredCh) > 0 && len(s.expiredCh) == cap(s.expiredCh) {
+		suffix = "@completed-loop-blocked-on-its-own-expiry-event"
+	}
 	s.loadedMu.Lock()
-	verifAssert(len(s.loaded) == 0, "nothing-reported-loaded-after-drain")
+	verifAssert(len(s.loaded) == 0, "nothing-reported-loaded-after-drain"+suffix)
 	s.loadedMu.Unlock()
 	for _, srv := range vfServers {
-		verifAssert(srv.closes == 1, "every-started-runner-shut-down-after-drain")
+		verifAssert(srv.closes == 1, "every-started-runner-shut-down-after-drain"+suffix)
 	}
 	verifReach("drained")
 }
